@@ -19,7 +19,7 @@ import dask
 import dask.array as da
 from pyproj import Proj, Transformer
 
-from pyresample import geo_filter, geometry, grid, image
+from pyresample import geo_filter, geometry, grid, image, utils
 from pyresample.bucket import BucketResampler
 from pyresample.ewa import ll2cr
 
@@ -150,6 +150,17 @@ def run_area(spec):
             return {"lons": fh(tl), "lats": fh(tt), "x": fh(x), "y": fh(y), "img": ih(res.image_data), "imgm": ih(res2),
                     "shape": [int(v) for v in res.image_data.shape]}
         out["icq"] = guarded(m_icq)
+    def m_quick(tspec):
+        target = mk_area(tspec)
+        tl, tt = target.get_lonlats()
+        x, y = Proj(**area.proj_dict)(tl, tt)
+        rows, cols = utils.generate_quick_linesample_arrays(area, target)
+        img = image.ImageContainerQuick(index_img, area, fill_value=0).get_array_from_linesample(rows, cols)
+        imgm = image.ImageContainerNearest(index_img, area, 1000, fill_value=None).get_array_from_linesample(rows, cols)
+        imgm = np.where(np.ma.getmaskarray(imgm), 0, np.ma.getdata(imgm))
+        return {"x": fh(x), "y": fh(y), "rows": ih(rows), "cols": ih(cols), "rdtype": str(rows.dtype), "cdtype": str(cols.dtype),
+                "img": ih(img), "imgm": ih(imgm)}
+    out["quick"] = [guarded(lambda t=t: m_quick(t)) for t in spec.get("ql_targets", [])]
     return out
 
 
